@@ -81,6 +81,15 @@ def case_model(case):
         p = Rm[:, i][:, None] * (m.len_scale * sc * t)[None, :]
         r.close("along main axis i the model has length scale len_scale*anis_i", m.cov_spatial(p), m.covariance(m.len_scale * t), rtol=1e-11, atol=1e-13, axis=i, **extra)
     r.close("cov_spatial(x) == covariance(|oracle transform x|)", m.cov_spatial(pos), m.covariance(np.linalg.norm(iso, axis=0)), rtol=1e-11, atol=1e-13, **extra)
+    # the same position array used again (float64, C-contiguous: the layout that can be aliased)
+    pa = np.ascontiguousarray(pos, dtype=np.double)
+    keep = pa.copy()
+    for fname in ("vario_spatial", "cov_spatial", "cor_spatial"):
+        first = np.array(getattr(m, fname)(pa))
+        again = np.array(getattr(m, fname)(pa))
+        r.close(f"{fname}: second evaluation on the same position array == first", again, first, rtol=0, atol=0, **extra)
+    r.close("spatial functions leave the position array unchanged", pa, keep, rtol=0, atol=0, **extra)
+    r.close("isometrize of the position array after the spatial functions == oracle transform", m.isometrize(pa), iso, rtol=1e-12, atol=1e-12, **extra)
     # list of length scales defines the anisotropy
     ls = [2.0] + [2.0 * a for a in fa]
     m2 = getattr(gs, case.get("cls", "Exponential"))(dim=d, var=1.6, len_scale=ls, angles=ang if d > 1 else 0.0)
